@@ -69,6 +69,8 @@ def probe_strategy(bytes_pool, lines_pool):
     famb = st.sampled_from(sorted(fams)).flatmap(lambda f: st.sampled_from(fams[f]))
     return st.one_of(
         famb.map(lambda x: {"k": "lift", "b": x}),
+        st.sampled_from(RAISING).map(lambda l: {"k": "emul", "b": l}),
+        st.sampled_from([m for m in MOVES if m in bytes_pool] or bytes_pool[:1]).map(lambda x: {"k": "emul", "b": [x]}),
         famb.map(lambda x: {"k": "liftsimp", "b": x}),
         st.lists(famb, min_size=1, max_size=3).map(lambda l: {"k": "emul", "b": l}),
         fam.map(lambda t: {"k": "hold", "b": t[0], "then": [{"k": "dis", "b": x} for x in t[1]]}),
@@ -89,13 +91,16 @@ def probe_strategy(bytes_pool, lines_pool):
 
 ACC = (["%02x01" % o for o in (0x04, 0x0C, 0x14, 0x1C, 0x24, 0x2C, 0x34, 0x3C, 0xA8)] + ["%02x01000000" % o for o in (0x05, 0x0D, 0x15, 0x1D, 0x25, 0x2D, 0x35, 0x3D, 0xA9)]
        + ["66%02x0100" % o for o in (0x05, 0x2D, 0x3D, 0xA9)] + ["e410", "e510", "66e510", "ec", "ed", "66ed", "e610", "e710", "91", "6693", "a000100000", "a100100000", "66a100100000"])
+MOVES = ["89c1", "89d9", "89c2", "89d8", "01c8", "29d8", "8d0403", "31c8"]
+# emulations that raise inside eval_instr after some registers were evaluated (rol / rcl on concrete operands: listed C11 / C06 findings)
+RAISING = [["b834120000", "c1c005"], ["bb00100000", "d1c3"], ["b9ffff0000", "d1d1"], ["b834120000", "89c3", "c1c308"]]
 RETS = ["c3", "66c3", "cb", "66cb", "c20400", "66c20400", "ca0800", "c9", "cf", "66cf"]
 X87 = ["d9%02x" % m for m in range(0xE0, 0x100)] + ["ded9", "dae9", "d8d9", "d8c1", "dcc1", "dec1", "d8e1", "dce1", "d8e9", "dce9", "d9c9", "ddd9", "dde1", "dfe0"]
 
 
 def families(pool):
     """groups of byte strings whose decodings share table rows / helper results (same implicit operand, same sub-register objects)"""
-    fams = {"accumulator": [x for x in ACC if x in pool], "x87": [x for x in X87 if x in pool], "returns": [x for x in RETS if x in pool],
+    fams = {"accumulator": [x for x in ACC if x in pool], "x87": [x for x in X87 if x in pool], "returns": [x for x in RETS if x in pool], "moves": [x for x in MOVES if x in pool],
             "x87-stack": [x for x in ("d9f7", "d9f6", "d9f1", "d9f3", "d9f9", "d8d9", "ddd9", "dae9", "ded9", "dec1", "d9c9") if x in pool],
             "subreg": [x for x in pool if len(x) in (4, 6) and x[:2] in ("88", "8a", "86", "00") or x[:4] in ("6689", "0fb6", "6601")]}
     return dict((k, v) for k, v in fams.items() if v)
@@ -184,7 +189,7 @@ def pools(run):
     # implicit-accumulator and x87 forms (operands come from shared descriptors / helper lists), and
     # sub-register forms: their operands are the shared slice objects of the register tables
     with runner.quiet():
-        for x in ACC + X87 + RETS:
+        for x in ACC + X87 + RETS + MOVES:
             try:
                 if x86mnemo.dis(bytes.fromhex(x)) is not None:
                     bs.append(x)
